@@ -55,3 +55,11 @@ Definition chunk_ranges (n : Z) (chunk : option Z) : list (Z * Z) :=
 Definition slice {A} (a b : Z) (l : list A) : list A := firstnz (b - a) (skipnz a l).
 Definition chunked {A} (rows : list A) (chunk : option Z) : list A :=
   concat (map (fun '(a, b) => slice a b rows) (chunk_ranges (zlen rows) chunk)).
+
+(* DLISWriter end to end: label, records, buffered output with the given (already validated) buffer size *)
+Definition write_buffered (c : sulcfg) (recs : list lrec) (cap : Z) (disk0 : bytes) : res ostate :=
+  if negb (check_vrl (sul_vrl c)) then Err EValue
+  else
+    do s <- sul_bytes c;
+    do vs <- vrs_of_recs (sul_vrl c) recs;
+    OK (run_output cap disk0 s vs).
